@@ -672,7 +672,7 @@ def replay_program(prog):
 def has_overlap_write(prog, it):
     """an in-place instruction reached a view with internal overlap (expanded entry): torch's behaviour there is
     kernel-specific (some kernels refuse, some warn) and is excluded from the correspondence"""
-    return any(ins.get("layout") == "expanded" for ins in prog)
+    return any(ins.get("layout") == "expanded" or (ins["i"] == "view" and ins["how"][0] == "expand") for ins in prog)
 
 
 def model_line(it):
@@ -934,6 +934,15 @@ def _diff(a, b):
 def replay(body):
     import warnings
     warnings.filterwarnings("ignore")
+    if body.get("kind") == "no-failing-input-found":
+        rc = 0
+        for u in body.get("no_longer_checks", []):
+            if "case" in u and isinstance(u["case"], dict) and "prog" in u["case"]:
+                print("correspondence no longer checks:", u.get("correspondence"))
+                rc |= replay({"case": u["case"], "check": u.get("correspondence"), "signature": None})
+            else:
+                print("no longer shown:", json.dumps(u, default=str)[:1500])
+        return rc
     case = body["case"]
     print("check:", body.get("check"), " signature:", json.dumps(body.get("signature")))
     if case.get("stream") == "reflect" or "fx" in case:
